@@ -36,6 +36,7 @@ type concOp struct {
 	desc    string
 	scratch bool
 	run     func() string
+	solo    func() string // when set: the solo reference run (must not touch the shared state first)
 }
 
 func multiset(qf qframe.QFrame) string {
@@ -82,7 +83,13 @@ func TestC11(t *testing.T) {
 			tabs[i] = hx.WithEnumDecl(obs, base)
 		}
 		// shared values
-		ctx := hx.NewCtx()
+		// the shared context: one with user functions registered for every type, or an untouched
+		// default context (whatever it sets up lazily happens inside the concurrent phase)
+		customCtx := rapid.Bool().Draw(t, "customctx")
+		ctx := eval.NewDefaultCtx()
+		if customCtx {
+			ctx = hx.NewCtx()
+		}
 		sharedClauses := make([]hx.Clause, 2)
 		sharedReal := make([]qframe.FilterClause, 2)
 		for i := range sharedClauses {
@@ -161,10 +168,18 @@ func TestC11(t *testing.T) {
 				ops[i] = concOp{desc: mn + ".Apply(" + hx.InstrsString(ins) + ")", run: func() string { return snapFrame(m.Apply(real...)) }}
 			case 8:
 				want := rapid.SampledFrom([]hx.Kind{hx.KInt, hx.KFloat, hx.KBool, hx.KString}).Draw(t, "want")
-				e := hx.GenExprOfKind(t, tab, want, 2, true)
+				e := hx.GenExprOfKind(t, tab, want, 2, customCtx)
 				real := e.Build()
-				ops[i] = concOp{desc: mn + ".Eval(n1, " + e.String() + ", shared ctx)", scratch: true, run: func() string {
+				ops[i] = concOp{desc: fmt.Sprintf("%s.Eval(n1, %s, shared ctx custom=%v)", mn, e.String(), customCtx), scratch: true, run: func() string {
 					return snapFrame(m.Eval("n1", real, eval.EvalContext(ctx)))
+				}, solo: func() string {
+					// the reference run uses a private context of the same kind, so that the first use
+					// of the shared one happens in the concurrent phase
+					private := eval.NewDefaultCtx()
+					if customCtx {
+						private = hx.NewCtx()
+					}
+					return snapFrame(m.Eval("n1", real, eval.EvalContext(private)))
 				}}
 			case 9:
 				x := rapid.IntRange(0, tab.N()).Draw(t, "a")
@@ -221,7 +236,11 @@ func TestC11(t *testing.T) {
 
 		solo := make([]string, nops)
 		for i, o := range ops {
-			if perr := hx.Safely(func() { solo[i] = o.run() }); perr != nil {
+			ref := o.run
+			if o.solo != nil {
+				ref = o.solo
+			}
+			if perr := hx.Safely(func() { solo[i] = ref() }); perr != nil {
 				t.Skip("an operation panics on its own: not C11's business")
 			}
 		}
